@@ -296,9 +296,12 @@ impl<'a> G<'a> {
         let mut prev_int = false;
         for i in 0..n {
             if i > 0 { if self.u.coin(1, 2) { let w = self.pick(&[" ", "\n", "  "]); self.mark(w, MK::HiddenWs); } self.eval_op(); self.ows(); }
-            if self.u.coin(1, 8) { let o = self.pick(&["-", "+", "not ", "^", "~", "NOT "]); let t = match o { "-" => "MINUS", "+" => "PLUS", "not " | "NOT " => "KwNOT", _ => "NOT" }; let l = o.trim_end().len(); let off = self.out.len(); self.p(o); self.marks.push(Mark { off, len: l, kind: MK::Op(t) }); }
+            // a mnemonic operator written without a following blank: what follows must not start with a name character
+            let glued = i > 0 && self.out.ends_with(|c: char| c.is_alphanumeric());
+            if glued { self.feat("mnemonic-glued-right"); }
+            if self.u.coin(1, 8) { let o = if glued { self.pick(&["-", "+", "^", "~"]) } else { self.pick(&["-", "+", "not ", "^", "~", "NOT "]) }; let t = match o { "-" => "MINUS", "+" => "PLUS", "not " | "NOT " => "KwNOT", _ => "NOT" }; let l = o.trim_end().len(); let off = self.out.len(); self.p(o); self.marks.push(Mark { off, len: l, kind: MK::Op(t) }); }
             self.tp();
-            prev_int = self.eval_operand(float);
+            prev_int = self.eval_operand(float, glued && self.out.ends_with(|c: char| c.is_alphanumeric()));
             self.tp();
         }
         self.depth -= 1;
@@ -307,13 +310,18 @@ impl<'a> G<'a> {
     fn eval_op(&mut self) {
         let (s, t) = [("+", "PLUS"), ("-", "MINUS"), ("*", "STAR"), ("/", "FSLASH"), ("**", "STAR2"), ("<", "LT"), (">", "GT"), ("<=", "LE"), (">=", "GE"), ("=", "ASSIGN"), ("^=", "NE"), ("~=", "NE"), ("ne", "KwNE"), ("EQ", "KwEQ"), ("lt", "KwLT"), ("Gt", "KwGT"), ("le", "KwLE"), ("ge", "KwGE"), ("and", "KwAND"), ("OR", "KwOR"), ("in", "KwIN"), ("#", "HASH"), ("&", "AMP"), ("|", "PIPE")][self.u.below(24)];
         let wordy = s.chars().all(|c| c.is_ascii_alphabetic());
-        if wordy && !self.out.ends_with([' ', '\n', '\t', '/']) { self.p(" "); }
+        // a mnemonic is recognized after whitespace or any character that cannot continue a name (')', '.', a quote, ...)
+        // (not directly after a closing quote: 'q'ne would read the n as a name-literal suffix - the lexer's documented suffix rule)
+        if wordy && self.out.ends_with(|c: char| c.is_alphanumeric() || c == '_' || c == '\'' || c == '"') { self.p(" "); }
+        else if wordy && !self.out.ends_with([' ', '\n', '\t', '/']) { if self.u.coin(2, 3) { self.p(" "); } else { self.feat("mnemonic-glued-left"); } }
         self.mark(s, MK::Op(t));
-        if wordy || s == "&" { self.p(" "); }
+        if s == "&" || (wordy && self.u.coin(3, 4)) { self.p(" "); }
     }
-    fn eval_operand(&mut self, float: bool) -> bool {
+    fn eval_operand(&mut self, float: bool, nonword: bool) -> bool {
         let l0 = self.marks.len();
-        match if self.depth > 6 { self.u.below(3) } else { self.u.below(10) } {
+        let k = if self.depth > 6 { self.u.below(3) } else { self.u.below(10) };
+        let k = if nonword { match k { 0 | 1 | 3 | 7 => 2, 5 | 6 if self.depth > 6 => 2, o => o } } else { k };
+        match k {
             0 | 1 => { let s = self.pick(&["0", "1", "42", "100", "0ffx", "007"]); self.mark(s, MK::IntOperand); self.tp(); }
             2 => self.mvar(true),
             3 => { let w = self.pick(&["abc", "x1", "txt", "é"]); self.p(w); }
